@@ -2,7 +2,7 @@
 Predicates and helper lemmas of the C13 property theorems (what "restored" means; the loaded
 machine satisfies it).
 -/
-import ZxVerif.Lemmas.Snapshot
+import ZxVerif.Lemmas.SnaDescribe
 namespace ZxVerif.C13
 open ZxVerif.Snap
 
